@@ -59,6 +59,15 @@ class Ctx:
         return self._cg
 
     def reachable_funcs(self, roots: Iterable[str]) -> Set[str]:
+        roots = tuple(sorted(roots))
+        memo = self.__dict__.setdefault("_reach_memo", {})
+        if roots in memo:
+            return memo[roots]
+        res = self._reachable(roots)
+        memo[roots] = res
+        return res
+
+    def _reachable(self, roots: Iterable[str]) -> Set[str]:
         cg = self.callgraph()
         seen: Set[str] = set()
         stack = list(roots)
